@@ -1,3 +1,16 @@
 import Iggy.Props.C20
-#print axioms Iggy.Props.C20.empty_sends_nothing
-#print axioms Iggy.Props.C20.sendTo_addressed
+#print axioms Iggy.Props.C20.chunks_flatten
+#print axioms Iggy.Props.C20.chunks_bounds
+#print axioms Iggy.Props.C20.producer_delivers
+#print axioms Iggy.Props.C20.reach_iff_run
+#print axioms Iggy.Props.C20.yields_in_order_once
+#print axioms Iggy.Props.C20.first_yield_resumes
+#print axioms Iggy.Props.C20.resume_after_committed
+#print axioms Iggy.Props.C20.lastYield_after_drop
+#print axioms Iggy.Props.C20.commit_le_yielded
+#print axioms Iggy.Props.C20.commit_le_fetched
+#print axioms Iggy.Props.C20.polled_stored
+#print axioms Iggy.Props.C20.no_stall
+#print axioms Iggy.Props.C20.no_stall_two_polls
+#print axioms Iggy.Props.C20.no_skip_across_incarnations
+#print axioms Iggy.Props.C20.yields_schedule_independent
